@@ -44,7 +44,7 @@ MANIFEST = {
             "ground program does not depend on clause or body order); the real engine's order sensitivity (clause index, "
             "left-to-right conjunction, cycle closing) is explored: all permuted runs are compared with one specification "
             "value, not pairwise.",
-    "note": "Trusted: Lean kernel; harness instantiation of programs. The engine is not modelled. Known finding F1 (false "
+    "note": "Trusted: Lean kernel; the serialiser of first-order programs (instantiation is Lean's SemFO.ground, C01FO/C07FO). The engine is not modelled. Known finding F1 (false "
             "NegativeCycle) is order dependent and is reported as KNOWN-FINDING.",
     "design_ref": "DESIGN.md §6 C07",
 }
